@@ -351,12 +351,16 @@ def run_case(case):
         ms = np.array(case['ms']).reshape(K, T)
         me = np.array(case['me']).reshape(K, T)
         w = np.array(case['w'], float)
-        sp = np.log(2.0) * np.broadcast_to(ms, (F, K, T)).astype(float)
+        # the bins are independent problems: bin 0 is the lattice point with every spatial value doubled in weight (+1: a
+        # higher criterion value), the following bins are the point with the spatial classes rolled (another best permutation)
+        F = max(F, 2) if K >= 2 else F
+        msb = [ms + 1] + [np.roll(ms, f, axis=0) for f in range(1, F)]
+        sp = np.log(2.0) * np.stack(msb).astype(float)
         se = np.log(2.0) * np.broadcast_to(me, (F, K, T)).astype(float)
         out, exc = call(mmu.log_pdf_to_affiliation_for_integration_models_with_inline_pa, (w / w.sum())[None, :, None], sp, se)
-        return [dict(kind='inlinepa', ms=ms.tolist(), me=me.tolist(), w=[int(x) for x in case['w']], exc=exc,
-                     out=[] if out is None else enc.arat(out[F - 1]), fp='fn=inline_pa_integration;lattice',
-                     key=f'ipa:{case["ms"]}:{case["me"]}:{case["w"]}')]
+        return [dict(kind='inlinepa', ms=msb[f].tolist(), me=me.tolist(), w=[int(x) for x in case['w']], exc=exc,
+                     out=[] if out is None else enc.arat(out[f]), fp=f'fn=inline_pa_integration;lattice;bin={min(f, 1)}',
+                     key=f'ipa:{case["ms"]}:{case["me"]}:{case["w"]}:{f}') for f in range(F)]
     raise ValueError(t)
 
 
